@@ -698,6 +698,13 @@ def run(ctx):
     if unsupported:
         ctx.note(f"fields of a type the codec does not support stay unset: {unsupported}")
 
+    # the simplest instances of the suspected defects (DESIGN.md §6) first, so that they are the reported examples
+    first = []
+    for cid, c in pkg.items():
+        for f in ts.schema(c):
+            if f.kind == "packed":
+                first.append(("links", cid, f.name, "alone", [[1, 2], [256], [1, 2, 3]]))
+    ctx.pmap(_work, first, parallel=False)
     work = [("message", cid, quick) for cid in list(pkg) + list(probes)]
     # packed id lists of received structures
     lists = _id_lists(quick)
